@@ -369,7 +369,7 @@ def main(tier: str, seed: int):
     sess = Session(PID, tier, seed, level="exploration", rule=RULE)
     sess.assume("the clamp-interval invariant is enforced for co-activation edges (rel=coact); concept edges attached by promotion carry the configured attach weight")
     sess.assume("item ids containing the edge-key separator are generated in a separately keyed class")
-    total = 3000 if tier == "quick" else 60000
+    total = 3000 if tier == "quick" else 200000
     nchunks = par.NWORK * (1 if tier == "quick" else 4)
     per = max(1, total // nchunks)
     for ex in par.pmap(_chunk, [(tier, seed, i, per) for i in range(nchunks)]):
